@@ -21,7 +21,7 @@ variable {P : Cmr.Params} (Q : RootParams P)
 def nodeAlg : Alg (Cmr.C P) P.H where
   iden := .leaf .iden
   unit := .leaf .unit
-  witness := .leaf .witness
+  witness := fun _ => .leaf .witness
   drop := fun x => .un .drop x
   comp := fun x y => .bin .comp x y
   pair := fun x y => .bin .pair x y
@@ -36,7 +36,7 @@ def nodeAlg : Alg (Cmr.C P) P.H where
 def cmrAlg : Alg P.H P.H where
   iden := Cmr.iv P (.l .iden)
   unit := Cmr.iv P (.l .unit)
-  witness := Cmr.iv P (.l .witness)
+  witness := fun _ => Cmr.iv P (.l .witness)
   drop := fun x => P.compress (Cmr.iv P (.u .drop)) (P.zero, x)
   comp := fun x y => P.compress (Cmr.iv P (.b .comp)) (x, y)
   pair := fun x y => P.compress (Cmr.iv P (.b .pair)) (x, y)
@@ -51,7 +51,7 @@ def cmrAlg : Alg P.H P.H where
 theorem cmr_rootHom : RootHom (nodeAlg Q) (cmrAlg Q) (Cmr.cmr P) where
   iden := rfl
   unit := rfl
-  witness := rfl
+  witness := fun _ => rfl
   drop := fun _ => rfl
   comp := fun _ _ => rfl
   pair := fun _ _ => rfl
@@ -61,6 +61,7 @@ theorem cmr_rootHom : RootHom (nodeAlg Q) (cmrAlg Q) (Cmr.cmr P) where
   jet := fun _ => rfl
   assertl := fun _ _ => rfl
   assertr := fun _ _ => rfl
+  witness_irrel := fun _ => rfl
 
 /-- the satisfied program as a committed structure: a "hidden" result is a hidden node -/
 def Hid.toC : Hid (Cmr.C P) P.H → Cmr.C P
